@@ -238,11 +238,15 @@ func c19(c *wk.Ctx) {
 						<-go2
 						p, err := sess.Proxy(name, 1)
 						if err == nil {
-							token := uint64(i)<<32 | uint64(1000+g) | uint64(atomic.AddInt64(&steady, 1))<<16
-							var res string
-							res, err = probe.MakeProbe(sess, p).Work(token, name)
-							if err == nil && res != svc.F(token, name) {
-								err = fmt.Errorf("wrong result %q", res)
+							// several calls through the proxy it was given: a working proxy returns the answer to ITS call
+							px := probe.MakeProbe(sess, p)
+							for q := 0; q < 6 && err == nil; q++ {
+								token := uint64(i)<<32 | uint64(1000+g) | uint64(atomic.AddInt64(&steady, 1))<<16
+								var res string
+								res, err = px.Work(token, name)
+								if err == nil && res != svc.F(token, name) {
+									err = fmt.Errorf("wrong result %q (the answer to another call)", res)
+								}
 							}
 						}
 						atomic.AddInt64(&progress, 1)
